@@ -26,6 +26,7 @@ def expected_stream(data, op_mode):
 
 class TranslatorTx(Sub):
     name = "translator"
+    shrink_budget = 150
     budget = {"quick": 6000, "thorough": 80000}
     rule = ("UTMITranslator + ULPI PHY BFM: UTMI transmissions (1..40 bytes, any first byte, op_mode 0/2) with "
             "generated NXT delay patterns, PHY bursts (RxCmds / receives) between transmissions and aimed at the "
